@@ -836,6 +836,8 @@ class Interp:
     def setitem(self, obj, idx, v):
         if isinstance(idx, EA):
             idx = self.concrete_mask(idx)
+        elif isinstance(idx, tuple) and idx and isinstance(idx[0], EA) and all(q is Ellipsis or (isinstance(q, slice) and q == slice(None)) for q in idx[1:]):
+            idx = (self.concrete_mask(idx[0]),) + tuple(idx[1:])  # x[mask, ...] = v with a symbolic row mask: decided by forking
         if isinstance(obj, Dep):
             obj[idx] = v
             return
